@@ -20,7 +20,7 @@ def repo_paths() -> List[str]:
 def install_repo_path() -> None:
     """Make `import krrood` and `import test.dataset...` resolve to the tree under test."""
     deps = os.path.join(VERIF_ROOT, ".deps")
-    for p in reversed(repo_paths() + ([deps] if os.path.isdir(deps) else [])):
+    for p in reversed(repo_paths() + [VERIF_ROOT] + ([deps] if os.path.isdir(deps) else [])):
         if p in sys.path:
             sys.path.remove(p)
         sys.path.insert(0, p)
